@@ -246,6 +246,10 @@ class World:
                 if f[0] == b"I":
                     self.history.append(("eintr", self.vnow()))
                     return ("I",)
+                if f[0] == b"P":
+                    # breakpoint inside the daemon's work (VSHIM_PAUSE): the daemon waits for resume()
+                    self.history.append(("pause", line[2:].decode("latin-1"), self.vnow()))
+                    return ("P", line[2:])
                 info = {"timeout": int(f[1]), "rfds": [] if f[2] == b"-" else [int(x) for x in f[2].split(b",")],
                         "wfds": [] if f[3] == b"-" else [int(x) for x in f[3].split(b",")], "spins": int(f[4]), "vnow": int(f[5]),
                         "req_timeout": int(f[6]) if len(f) > 6 else int(f[1])}
